@@ -21,3 +21,17 @@ def ca_component(profile, nq=1500, nt=20000):
         c["gen_args"] = ["-profile", profile]
         c["label"] = "ca-" + profile
     return c
+
+
+# the metadata package on its own (metadata/metadata.go <-> lean/Gnmi/Model/Metadata.lean): exhaustive small scope +
+# seeded random histories over the whole exported API, registries included
+MD_COMPONENT = {"c": "md", "quick": {"n": 600, "exhaustive": True},
+                "thorough": {"n": 20000, "exhaustive": True, "seeds": 4}}
+MD_TB = [
+    "metadata model lean/Gnmi/Model/Metadata.lean (Go maps as association lists, results up to key order; int64 = Lean Int64; "
+    "the mutex and the zero-value Metadata{} are not modelled), validated by the md correspondence, which reads the raw value "
+    "maps through go/pkg_metadata/zz_verif_export.go",
+]
+# counters of the metadata object: GetInt = value established by the last SetInt / reset + sum of the AddInt calls since
+MD_COUNTER_THEOREMS = ["Gnmi.C14Meta." + t for t in [
+    "addInt_sums", "getInt_after_setInt", "getInt_after_reset", "getInt_after_delete", "get_unregistered", "set_unregistered"]]
